@@ -92,7 +92,7 @@ var probeDocs = []string{
 	`<iframe src="http://e.com/" sandbox="allow-forms allow-scripts bogus">f</iframe><iframe sandbox="">g</iframe><iframe>h</iframe>`,
 	`<img src="http://e.com/i.png" alt="a b" width="10" height="10%" align="left" crossorigin="use-credentials"><img src="data:image/png;base64,iVBORw0KGgo="><img src="/i">`,
 	`<!-- comment --><p data-x="1" data-a;b="2" id="i1" title="T t" dir="rtl" lang="en">attrs</p><![CDATA[x]]>`,
-	`<span style="color: red; COLOR: BLUE; background: url(javascript:x)">s</span><p style="color: red">p</p><div style="color: #fff">d</div>`,
+	`<span style="color: red; COLOR: BLUE; background: url(javascript:x)">s</span><p style="color: red">p</p><div style="color: #fff">d</div><span style="color: #fff; width: 1px">w</span>`,
 	`<ul type="disc"><li type="a" value="3">l</li></ul><ol type="I"></ol><dl><dt>t</dt><dd>d</dd></dl><table summary="s"><tr><td colspan="2">c</td></tr></table>`,
 	`x<blink>unknown</blink>y<form><input type="image" src="javascript:alert(1)"></form><source src="javascript:x"><q cite="http://e.com/">q</q><del cite="x y">d</del>`,
 	` <title>t</title><noscript>n</noscript><frame src=x>after frame<textarea>ta</textarea> `,
@@ -207,7 +207,7 @@ type eqClass struct {
 // cmdReplayPolicy: CASE lines of MC_Policy -> the real builder API.
 func cmdReplayPolicy(args []string) int {
 	fs := flag.NewFlagSet("replaypolicy", flag.ExitOnError)
-	_ = fs.String("fam", "", "family file (unused: cases carry their calls)")
+	famPath := fs.String("fam", "", "family file (the cases carry their calls; the accumulation sweep uses the call alphabet)")
 	_ = fs.String("props", "", "")
 	_ = fs.Int("variants", 1, "")
 	seed := fs.Int64("seed", 1, "")
@@ -320,6 +320,11 @@ func cmdReplayPolicy(args []string) int {
 			}
 		}
 	}
+	if *famPath != "" {
+		if fam, err := LoadFamily(*famPath); err == nil {
+			accumulateSweep(fam, res, seenV)
+		}
+	}
 	res.Nontrivial = len(classes)
 	res.Extra = map[string]interface{}{"distinct_abstract_policies": len(classes)}
 	if *outPath != "" {
@@ -327,6 +332,94 @@ func cmdReplayPolicy(args []string) int {
 	}
 	fmt.Printf("replaypolicy: cases=%d classes=%d divergences=%d violations=%d\n", res.Cases, len(classes), res.Divergences, len(res.Violations))
 	return 0
+}
+
+// keptTriples: what a policy lets through on a probe document, as a multiset of (element, attribute, value) with the style
+// attribute split into its declarations, plus the bare tags.
+func keptTriples(p *bm.Policy, model *AP, doc string, styleOnlyWhere func(el string) bool) map[string]int {
+	m := map[string]int{}
+	for _, t := range Tokens([]byte(p.Sanitize(doc))) {
+		if t.T != "start" && t.T != "self" {
+			continue
+		}
+		m[t.N]++
+		for _, a := range t.A {
+			if a.K == "style" {
+				if !styleOnlyWhere(t.N) {
+					continue
+				}
+				for _, d := range strings.Split(a.V, ";") {
+					if d = strings.TrimSpace(d); d != "" {
+						m[t.N+"|style|"+d]++
+					}
+				}
+				continue
+			}
+			m[t.N+"|"+a.K+"|"+a.V]++
+		}
+	}
+	return m
+}
+
+func isAccumulatingCall(c Call) bool {
+	switch c.M {
+	case "AllowAttrs", "AllowStyles", "AllowElements", "AllowElementsMatching":
+		return true
+	}
+	return false
+}
+
+// accumulateCheck: "rules accumulate rather than replace one another": whatever the policy ctor+c1 lets through, ctor+c1+c2
+// lets through as well (c1, c2 rule-adding calls). Style declarations are compared only on elements for which ctor+c1 already
+// filters styles (a first style rule for an element legitimately switches the filter on).
+func accumulateCheck(ctor, c1, c2 Call) (detail, probeDoc string) {
+	r1 := Recipe{ctor, c1}
+	r12 := Recipe{ctor, c1, c2}
+	for i := range r12 {
+		r12[i].norm()
+	}
+	for i := range r1 {
+		r1[i].norm()
+	}
+	m1 := BuildAP(r1)
+	p1, p12 := BuildReal(r1), BuildReal(r12)
+	filt := func(el string) bool { return m1.hasStyleRules(el) }
+	for _, doc := range probeDocs {
+		a, b := keptTriples(p1, m1, doc, filt), keptTriples(p12, nil, doc, filt)
+		for k, n := range a {
+			if b[k] < n {
+				return fmt.Sprintf("rules replace instead of accumulating: with %s the policy keeps %q on %q, after adding %s it no longer does", strings.Join(recipeSummary(r1), " "), k, doc,
+					strings.Join(recipeSummary(Recipe{c2}), "")), doc
+			}
+		}
+	}
+	return "", ""
+}
+
+func accumulateSweep(fam *Family, res *RunResult, seenV map[string]bool) {
+	ctors := []Call{{M: "NewPolicy"}, {M: "UGCPolicy"}}
+	for _, ctor := range ctors {
+		for _, c1 := range fam.Calls {
+			if !isAccumulatingCall(c1) {
+				continue
+			}
+			for _, c2 := range fam.Calls {
+				if !isAccumulatingCall(c2) {
+					continue
+				}
+				res.Execs++
+				if det, doc := accumulateCheck(ctor, c1, c2); det != "" {
+					key := "accumulate:" + c1.M + ":" + c2.M
+					if !seenV[key] || len(res.Violations) < 5 {
+						seenV[key] = true
+						ha := []histStep{{1, ctor}, {1, c1}}
+						hb := []histStep{{1, ctor}, {1, c1}, {1, c2}}
+						res.Violations = append(res.Violations, ViolationRec{Finding{"C17", key, det}, writeC17Replay(key, det, ha, hb, 1, doc)})
+					}
+				}
+			}
+		}
+	}
 }
 
 func histString(h []histStep) string {
@@ -517,6 +610,14 @@ func reproC17(path string) int {
 	if err := LoadJSONFile(path, &rf); err != nil {
 		fmt.Fprintln(os.Stderr, err)
 		return 2
+	}
+	if strings.HasPrefix(rf.Key, "accumulate:") && len(rf.HistB) == 3 {
+		if det, _ := accumulateCheck(rf.HistB[0].C, rf.HistB[1].C, rf.HistB[2].C); det != "" {
+			fmt.Printf("VIOLATION property=C17 replay=%s\n  %s\n", path, det)
+			return 1
+		}
+		fmt.Println("property holds on this replay")
+		return 0
 	}
 	res := &RunResult{}
 	seen := map[string]bool{}
